@@ -37,6 +37,7 @@ func init() {
 			c.run("C01-S9", "TYPESTATE: no file or connection is used after an in-line Close of the same value", noUseAfterClose)
 			c.run("C01-S10", "shared with C04-R7: the sender's staging buffer is never storage the send stage may still be reading", c04FreshStaging)
 			c.run("C01-S11", "shared with C11-R2: every read of the transfer waits on a timer of its own (a shared, re-armed timer can have fired unseen and fails the first read after a long pause)", c11R2)
+			c.run("C01-S12", "shared with C18-R6: a read that timed out across a pause keeps the timeout sentinel all the way up (a fault-free transfer that is paused and continued completes)", c18Sentinel)
 			c.run("C01-S6", "shared with C07-R2b: one local name per source path id (two sources with the same base name are not merged)", c07MapKey)
 		})
 }
